@@ -955,6 +955,7 @@ var anchorTable = map[string][][2]string{
 	"C08": {{"controller/config", "CreateWithConfig"}, {"controller/config", "Options.AddFlags"}},
 	"C09": {{"controller/config", "CreateWithConfig"}, {"controller/config", "Options.AddFlags"}},
 	"C12": {{"controller/config", "CreateWithConfig"}, {"controller/config", "Options.AddFlags"}},
+	"C14": {{"controller/reconciler", "+hdlr.Generic"}, {"controller/reconciler", "+hdlr.Create"}, {"controller/reconciler", "+hdlr.Update"}, {"controller/reconciler", "+hdlr.Delete"}},
 	"C13": {{"controller/config", "CreateWithConfig"}, {"controller/config", "Options.AddFlags"}, {"utils/workqueue", "New"},
 		{"utils", "+queue.RunWithContext"}, {"utils", "+queue.Add"}, {"utils", "+queue.AddAfter"}, {"utils", "+queue.Notify"}, {"utils", "+queue.Remove"}, {"utils", "+NewRateLimitingQueue"}, {"utils", "+NewFailureRateLimitingQueue"}, {"utils", "+NewQueue"}},
 	"C17": {{"controller/config", "CreateWithConfig"}, {"controller/config", "Options.AddFlags"}},
